@@ -4,13 +4,13 @@ package main
 // are evaluated while the run proceeds.
 
 import (
-	"strconv"
-	"reflect"
 	"encoding/hex"
 	"fmt"
 	"math"
+	"reflect"
 	"runtime"
 	"sort"
+	"strconv"
 	"strings"
 	"unsafe"
 
@@ -63,7 +63,7 @@ type poolVal struct {
 }
 
 type taskCtx struct {
-	pool map[string][]*poolVal
+	pool    map[string][]*poolVal
 	id      int
 	recs    []rec
 	vault   []vaultEntry
@@ -93,6 +93,7 @@ type probeCounts struct {
 	AliasedArgs        int64 // arguments passed as substrings of library-returned strings
 	PoolValueArgs      int64 // calls of discovered API that were given values of library types returned by earlier calls
 	PoolValuesKept     int64 // such values kept
+	OffsetArgs         int64 // operations whose string arguments started at a chosen offset of a machine word
 	StackSets          int64 // Sets performed on a stack copy of the object, deep in the goroutine stack
 	GCBetweenOps       int64 // collections forced between two operations of a task (ephemeral arguments)
 	ObjArgs            int64 // calls of discovered API that were handed objects of the version's type
@@ -117,6 +118,7 @@ func (a *probeCounts) add(b *probeCounts) {
 	a.AliasedArgs += b.AliasedArgs
 	a.PoolValueArgs += b.PoolValueArgs
 	a.PoolValuesKept += b.PoolValuesKept
+	a.OffsetArgs += b.OffsetArgs
 	a.StackSets += b.StackSets
 	a.GCBetweenOps += b.GCBetweenOps
 	a.ObjArgs += b.ObjArgs
@@ -604,7 +606,17 @@ func (x *runCtx) execOp(tc *taskCtx, opi int, op Op) {
 	if x.plan.AliasArgs {
 		op = x.aliasArgs(tc, op)
 	}
-	if x.plan.EphArgs {
+	if x.plan.ArgOffset && !x.plan.AliasArgs {
+		off := (tc.id + opi) % 8
+		shift := func(s string) string {
+			if s == "" {
+				return s
+			}
+			return (strings.Repeat("#", off) + s + "#")[off : off+len(s)]
+		}
+		op.S, op.S2 = shift(op.S), shift(op.S2)
+		tc.probes.OffsetArgs++
+	} else if x.plan.EphArgs {
 		for _, g := range x.plan.GCOps {
 			if len(g) == 2 && g[0] == tc.id && g[1] == opi {
 				runtime.GC() // what earlier calls were given is garbage by now
